@@ -125,8 +125,12 @@ Definition class_of (s : site) : option mr_class :=
 
 (* a generated site is acceptable when it is in the table; an operand the translator RESOLVED as a
    map may not be waved through as "not a map" *)
+(* "keys-sorted": the translator recognised, structurally, a loop that only appends the (distinct) keys
+   to a slice which is sorted by sort.Strings / sort.Ints before any other use - the MRSorted "strings"
+   / "ints" class, wherever the loop lives (so that moving the idiom into a helper needs no new entry) *)
 Definition site_classified (g : string * string * string * Z * string) : bool :=
   let '(s, kind) := g in
+  if String.eqb kind "keys-sorted" then true else
   match class_of s with
   | Some MRNotMap => negb (String.eqb kind "map")
   | Some _ => true
@@ -198,7 +202,12 @@ Definition sort_site_table : list ((string * string * string) * string) := [
 
 Definition is_sort_pkg_call (c : string) : bool := String.prefix "sort." c || String.prefix "slices." c.
 
+(* sort.Strings / sort.Ints order by the total order of the element type, equal elements are
+   indistinguishable: deterministic wherever they are called (sort_strings_deterministic,
+   sort_ints_deterministic), so such a call needs no entry of its own *)
+Definition is_total_std_sort (c : string) : bool := String.prefix "sort.Strings(" c || String.prefix "sort.Ints(" c.
+
 Definition sort_site_known (s : string * string * string) : bool :=
   let '(f, g, c) := s in
-  negb (is_sort_pkg_call c) ||
+  negb (is_sort_pkg_call c) || is_total_std_sort c ||
   existsb (fun e => let '(f', g', c') := fst e in String.eqb f f' && String.eqb g g' && String.eqb c c') sort_site_table.
